@@ -74,6 +74,11 @@ structure Safe8 (cfg : Cfg) (a : A) : Prop where
   /-- every write so far was acceptable -/
   log : ∀ w ∈ a.core.writes, WriteOk cfg.safes w
 
+theorem stopFinish_started (cfg : Cfg) (c : Core) : (c.stopFinish cfg).started = false := rfl
+
+theorem stopFinish_paused (cfg : Cfg) (c : Core) : (c.stopFinish cfg).paused = false := by
+  unfold Core.stopFinish Core.writeImage; simp only []; split <;> rfl
+
 /-- all repairs that C08 needs -/
 def Repaired (cfg : Cfg) : Prop :=
   cfg.guard = true ∧ cfg.startWrite = true ∧ cfg.pauseGate = true ∧ cfg.errSafe = true
@@ -110,7 +115,12 @@ theorem safe8_step (cfg : Cfg) (hc : Repaired cfg) (a : A) (act : Act) (hA : C06
     have hs' : a.core.started = false := hs
     exact absurd (hstop hs') hen.2
   case stopFinish =>
-    refine ⟨fun _ hr => ?_, fun hs => by simp [Act.apply, Core.stopFinish, Core.writeImage] at hs; split at hs <;> simp at hs, ?_⟩
+    refine ⟨fun _ hr => ?_, fun hs => ?_, ?_⟩
+    rotate_left
+    · have := stopFinish_started cfg a.core
+      simp only [Act.apply] at hs
+      rw [this] at hs; cases hs
+    rotate_left
     · simp only [Act.apply, Core.stopFinish, Core.writeImage]
       by_cases hs : a.core.started = true
       · simp only [hs, if_true]
@@ -123,8 +133,7 @@ theorem safe8_step (cfg : Cfg) (hc : Repaired cfg) (a : A) (act : Act) (hA : C06
       · simp only [hs, if_true, List.mem_append, List.mem_singleton] at hw
         rcases hw with hw | hw
         · exact h3 w hw
-        · subst hw
-          exact ⟨fun h => by cases h, fun _ h => by cases h⟩
+        · refine ⟨fun h => ?_, fun _ h => ?_⟩ <;> simp [hw] at h
       · simp only [hs, Bool.false_eq_true, if_false] at hw
         exact h3 w hw
   case error =>
@@ -149,13 +158,15 @@ theorem safe8_step (cfg : Cfg) (hc : Repaired cfg) (a : A) (act : Act) (hA : C06
     simp only [Act.apply, Core.writeImage]
     by_cases hs : a.core.started = true
     · simp only [hs, if_true]
-      refine ⟨fun h => by cases h, h2, ?_⟩
+      refine ⟨fun h => (by cases h), fun _ hp => h2 hs hp, ?_⟩
       intro w hw
       simp only [List.mem_append, List.mem_singleton] at hw
       rcases hw with hw | hw
       · exact h3 w hw
-      · subst hw
-        exact ⟨fun h => by cases h, fun _ hp => h2 hs hp⟩
+      · refine ⟨fun h => ?_, fun _ hp => ?_⟩
+        · simp [hw] at h
+        · rw [hw] at hp ⊢
+          exact h2 hs hp
     · simp only [hs, Bool.false_eq_true, if_false]
       exact ⟨h1, h2, h3⟩
   case ev e =>
@@ -168,7 +179,8 @@ theorem safe8_step (cfg : Cfg) (hc : Repaired cfg) (a : A) (act : Act) (hA : C06
   case uwrite i v u =>
     refine ⟨h1, fun hs hp => ?_, h3⟩
     cases u
-    · exact absurd hp (by simp [hen hpg rfl])
+    · have hp' : a.core.paused = true := hp
+      rw [hen hpg rfl] at hp'; cases hp'
     · exact safeVals_set _ _ _ _ _ (h2 hs hp)
 
 /-! ## Operation sequences -/
@@ -238,13 +250,13 @@ theorem inactive_write_is_first (cfg : Cfg) (a : A) (act : Act) :
     simp only [Act.apply, Core.writeImage] at hw
     split at hw
     · simp only [List.mem_append, List.mem_singleton] at hw
-      exact hw.imp id (fun h => h ▸ rfl)
+      exact hw.imp id (fun h => by rw [h])
     · exact Or.inl hw
   case stopFinish =>
     simp only [Act.apply, Core.stopFinish, Core.writeImage] at hw
     split at hw
     · simp only [List.mem_append, List.mem_singleton] at hw
-      exact hw.imp id (fun h => h ▸ rfl)
+      exact hw.imp id (fun h => by rw [h])
     · exact Or.inl hw
   case error =>
     have : (Act.apply cfg Act.error a).core.writes = a.core.writes := by
